@@ -1,0 +1,59 @@
+//go:build verif
+
+package main
+
+import (
+	"fmt"
+	"strconv"
+	"strings"
+
+	"mvdan.cc/garble/internal/ctrlflow"
+)
+
+func verifInts(s string) []int {
+	var out []int
+	if s == "-" || s == "" {
+		return out
+	}
+	for _, f := range strings.Split(s, ",") {
+		out = append(out, verifInt(f))
+	}
+	return out
+}
+
+func verifJoinInts(l []int) string {
+	if len(l) == 0 {
+		return "-"
+	}
+	var sb []string
+	for _, v := range l {
+		sb = append(sb, strconv.Itoa(v))
+	}
+	return strings.Join(sb, ",")
+}
+
+var _ = func() bool {
+	// cffalse <seed> <n> -> v1,op,v2;v1,op,v2;...  (real randomAlwaysFalseCond)
+	verifOps["cffalse"] = func(a []string) string {
+		var out []string
+		for _, s := range ctrlflow.VerifAlwaysFalse(int64(verifInt(a[0])), verifInt(a[1])) {
+			out = append(out, strings.ReplaceAll(s, " ", ","))
+		}
+		return strings.Join(out, ";")
+	}
+	// cfkeys <seed> <count> <blacklist> -> <draws> <keys>  (real generateKeys; draws are the Int31 values consumed)
+	verifOps["cfkeys"] = func(a []string) string {
+		draws, keys := ctrlflow.VerifGenerateKeys(int64(verifInt(a[0])), verifInt(a[1]), verifInts(a[2]))
+		return verifJoinInts(draws) + " " + verifJoinInts(keys)
+	}
+	// cfxor <seed> <n> / cfdeleg <seed> <n> -> the literals of the emitted hardening code
+	verifOps["cfxor"] = func(a []string) string {
+		return ctrlflow.VerifXor(int64(verifInt(a[0])), verifInt(a[1]))
+	}
+	verifOps["cfdeleg"] = func(a []string) string {
+		return ctrlflow.VerifDelegate(int64(verifInt(a[0])), verifInt(a[1]))
+	}
+	return true
+}()
+
+var _ = fmt.Sprint
